@@ -1233,6 +1233,17 @@ func (p *Parser) relocateNamedObjects(objIndex uint32) parseResult {
 					return parseResultFailed
 				}
 			}
+
+			// The target must not lie inside the object's own subtree:
+			// attaching the object below itself would cut it off from
+			// the tree and make the traversal below recurse forever.
+			for ancestor := targetObj; ancestor != nil; ancestor = p.objTree.ObjectAt(ancestor.parentIndex) {
+				if ancestor == obj {
+					kfmt.Fprintf(p.errWriter, "[table: %s, offset: 0x%x] relocation path \"%s\" resolved to a scope inside the object itself\n", p.tableName, obj.amlOffset, namepath[:])
+					return parseResultFailed
+				}
+			}
+
 			p.objTree.detach(p.objTree.ObjectAt(obj.parentIndex), obj)
 			p.objTree.append(targetObj, obj)
 			p.objTree.ObjectAt(obj.firstArgIndex).value = namepath[nameIndex:]
